@@ -1,5 +1,100 @@
-import Asn1Verif.Base.Text
-/- line protocol, stream `proto` — not implemented yet -/
+import Asn1Verif.Uper.Sexpr
+import Asn1Verif.Proto.Codec
+import Asn1Verif.Proto.Schema
+/- line protocol, stream `proto` (C17, C18, protobuf part of C04) -/
 namespace Driver.ProtoStream
-def handle (_args : List String) : String := "bad-op"
+open Asn1Verif Asn1Verif.Uper Asn1Verif.Proto Asn1Verif.Text
+
+/-- the reader variant the code currently is: selected by the translator (`Gen/Consts.lean`),
+    `none` = unchecked lengths (panics), `some` = with the bound checks of the fix: commits -/
+def currentFix : Option Asn1Verif.Proto.Fix :=
+  if Asn1Verif.Consts.PROTO_READER_CHECKED then some ⟨.endOfStream, true⟩ else none
+
+
+def rest (args : List String) : Option (List Sx) := sxParse (sxTokens (String.intercalate " " args))
+
+/-- `<hex>` / `err:<class>` / `panic` -/
+def short (o : Outcome (List (BitVec 8))) : String :=
+  match o with
+  | .ok b => bytesToHex b
+  | .err k => "err:" ++ toString k
+  | .panic => "panic"
+
+def handle (args : List String) : String :=
+  match args with
+  | ["files"] => "skip"
+  | ["sets"] => "skip"
+  | "schema" :: _ => "skip"
+  | "enc" :: _ :: r =>
+    match rest r with
+    | some [t, v] =>
+      match tyOfSx t, valOfSx v with
+      | some t, some v =>
+        match encode t v with
+        | .ok bytes =>
+          let n := bytes.length
+          let exact := short (encodeTo ⟨some n, []⟩ t v)
+          let less := if n = 0 then "-" else
+            match encodeTo ⟨some (n - 1), []⟩ t v with
+            | .ok b => "ok:" ++ bytesToHex b
+            | .err k => "err:" ++ toString k
+            | .panic => "panic"
+          "ok " ++ bytesToHex bytes ++ " slice:" ++ exact ++ " short:" ++ less
+        | .err .illTyped => "bad-op"
+        | .err k => "err " ++ toString k
+        | .panic => "panic"
+      | _, _ => "bad-op"
+    | _ => "bad-op"
+  | "rt" :: _ :: r =>
+    match rest r with
+    | some [t, v] =>
+      match tyOfSx t, valOfSx v with
+      | some t, some v =>
+        match encode t v with
+        | .ok bytes =>
+          match decode currentFix t bytes with
+          | .ok v' =>
+            "ok " ++ bytesToHex bytes ++ " " ++ valToSx v' ++ " eq:" ++ boolStr (v == v') ++
+              " peq:" ++ boolStr (Val.protoEq t v v')
+          | .err k => "ok " ++ bytesToHex bytes ++ " readerr:" ++ toString k
+          | .panic => "ok " ++ bytesToHex bytes ++ " readpanic"
+        | .err .illTyped => "bad-op"
+        | .err k => "err " ++ toString k
+        | .panic => "panic"
+      | _, _ => "bad-op"
+    | _ => "bad-op"
+  | "dec" :: _ :: r =>
+    match rest r with
+    | some [t, Sx.atom h] =>
+      match tyOfSx t, hexToBytes h with
+      | some t, some bytes => render valToSx (decode currentFix t bytes)
+      | _, _ => "bad-op"
+    | _ => "bad-op"
+  -- the same input under the repaired reader (DESIGN.md R7/R10): never compared with the code
+  | "decfix" :: _ :: r =>
+    match rest r with
+    | some [t, Sx.atom h] =>
+      match tyOfSx t, hexToBytes h with
+      | some t, some bytes => render valToSx (decode (some ⟨.endOfStream, true⟩) t bytes)
+      | _, _ => "bad-op"
+    | _ => "bad-op"
+  -- `peq x <Ty> <Val> <Val>`: the model of `ProtobufEq` (the harness answers `err unsupported` for
+  -- shapes it has no crate implementation to call: compared only where it answers `ok`)
+  | "peq" :: _ :: r =>
+    match rest r with
+    | some [t, a, b] =>
+      match tyOfSx t, valOfSx a, valOfSx b with
+      | some t, some a, some b => "ok " ++ boolStr (Val.protoEq t a b)
+      | _, _, _ => "bad-op"
+    | _ => "bad-op"
+  -- schema model: `wire <name> <Ty>` -> numbers and declared types of the generated definition
+  | "wire" :: _ :: r =>
+    match rest r with
+    | some [t] =>
+      match tyOfSx t with
+      | some t => "ok " ++ Schema.render t
+      | none => "bad-op"
+    | _ => "bad-op"
+  | _ => "bad-op"
+
 end Driver.ProtoStream
